@@ -141,13 +141,23 @@ type memWindow struct {
 	size int
 }
 
-var memWindows = []memWindow{{1000, 48}, {0, 48}, {1<<64 - 300, 48}}
+var memWindows = []memWindow{{1000, 48}, {0, 48}, {1<<64 - 300, 48}, {5000, 600}, {1<<64 - 700, 600}}
+
+// memMaxWidth is the largest access width used in window w: the small windows
+// force overlaps of short accesses, the large ones exercise widths up to 200
+// bytes (expression widths go up to 255).
+func memMaxWidth(w memWindow, small int) int {
+	if w.size >= 600 {
+		return 200
+	}
+	return small
+}
 
 // memChecker drives one memory.Memory against a layered model.
 type memChecker struct {
 	mem   memory.Memory
-	view  memView    // layers, upper first
-	top   *memModel  // layer receiving stores
+	view  memView   // layers, upper first
+	top   *memModel // layer receiving stores
 	win   memWindow
 	hist  strings.Builder
 	seeds []uint64
@@ -157,7 +167,15 @@ type memChecker struct {
 	constOnly bool
 	// stats
 	asymLoad, partialOverwrite, multiPiece bool
-	maxW       int
+	maxW                                   int
+}
+
+// valMaxWidth is the largest width of stored values.
+func (c *memChecker) valMaxWidth() int {
+	if c.maxW > 40 {
+		return 255
+	}
+	return 40
 }
 
 func (c *memChecker) drawRange(t *rapid.T, label string) (uint64, expr.Width) {
@@ -195,13 +213,13 @@ func (c *memChecker) store(t *rapid.T) {
 		vw := w
 		switch rapid.IntRange(0, 3).Draw(t, "stvw") {
 		case 0:
-			vw = irsem.GenWidth(t, irsem.GenCfg{MaxWidth: 40}, "stvww")
+			vw = irsem.GenWidth(t, irsem.GenCfg{MaxWidth: c.valMaxWidth()}, "stvww")
 		}
 		v = irsem.GenConst(t, vw, "stv")
 	} else {
-		v = irsem.GenExpr(t, irsem.GenCfg{MaxDepth: 2, MaxWidth: 40})
+		v = irsem.GenExpr(t, irsem.GenCfg{MaxDepth: 2, MaxWidth: c.valMaxWidth()})
 		if !irsem.HasLoad(v) {
-			v = expr.NewRegLoad(irsem.RegKeys[rapid.IntRange(0, 3).Draw(t, "str")], irsem.GenWidth(t, irsem.GenCfg{MaxWidth: 40}, "strw"))
+			v = expr.NewRegLoad(irsem.RegKeys[rapid.IntRange(0, 3).Draw(t, "str")], irsem.GenWidth(t, irsem.GenCfg{MaxWidth: c.valMaxWidth()}, "strw"))
 		}
 	}
 	// partial overwrite statistics
